@@ -117,8 +117,8 @@ impl Property for C24 {
 
     fn runs(&self, tier: Tier) -> u64 {
         match tier {
-            Tier::Quick => 96,
-            Tier::Thorough => 96 * 60,
+            Tier::Quick => 96 * 3,
+            Tier::Thorough => 96 * 300,
         }
     }
 
